@@ -57,9 +57,16 @@ def G_weighted_steps():
                       (1, st.just("hashseed")))
 
 
-def other_inputs(sb, n, tag):
-    """n other inputs with names disjoint from the tree under test."""
+def other_inputs(sb, n, tag, twin_of=None):
+    """n other inputs with names disjoint from the tree under test.  twin_of: text of a file of the tree under test;
+    a copy whose doccomments are turned into ordinary bracket comments (same commands at the same lines and columns,
+    without documentation) is documented first."""
     out = []
+    if twin_of:
+        p = sb.path("else", f"zz_twin_{tag}.cmake")
+        with open(p, "w") as f:
+            f.write(twin_of.replace("#[[[", "#[[ "))
+        out.append(p)
     for i in range(n):
         if i % 2 == 0:
             p = sb.path("else", f"zz_other_{tag}_{i}.cmake")
@@ -191,7 +198,8 @@ def evaluate(case):
                         raise RuntimeError(f"subprocess-exit-{p.returncode}")
                 elif kind in ("others-before", "others-after", "others-both"):
                     multi = True
-                    before = other_inputs(sb, n, f"b{i}") if kind in ("others-before", "others-both") else []
+                    twin = next((t for pth, t in S.tree_files(tree) if T.is_cmake(os.path.basename(pth)) and "#[[[" in t), None)
+                    before = other_inputs(sb, n, f"b{i}", twin if n != 2 else None) if kind in ("others-before", "others-both") else []
                     after = other_inputs(sb, n, f"a{i}") if kind in ("others-after", "others-both") else []
                     argv = args_for(input_abs(home), out)
                     argv = before + [argv[0]] + after + argv[1:]
